@@ -129,7 +129,7 @@ func (a *Agent) GatherCandidates() error {
 		}
 
 		a.gatherCandidateCancel() // Cancel previous gathering routine
-		ctx, cancel := context.WithCancel(ctx)
+		ctx, cancel := context.WithCancel(context.WithValue(ctx, gatherUfragKey{}, a.localUfrag))
 		a.gatherCandidateCancel = cancel
 		prevDone := a.gatherCandidateDone
 		done := make(chan struct{})
@@ -150,6 +150,28 @@ func (a *Agent) GatherCandidates() error {
 	}
 
 	return gatherErr
+}
+
+// gatherUfragKey is the context key of the local ufrag a gather cycle was started for.
+type gatherUfragKey struct{}
+
+// gatherUfrag returns the local ufrag of the generation the gather cycle ctx belongs to.
+// GatherCandidates records it on the agent loop: the gathering goroutines must not read
+// a.localUfrag themselves, Restart replaces it on the loop (and cancels their cycle).
+func (a *Agent) gatherUfrag(ctx context.Context) string {
+	if ufrag, ok := ctx.Value(gatherUfragKey{}).(string); ok {
+		return ufrag
+	}
+
+	// Not a cycle started by GatherCandidates: ask the loop.
+	var ufrag string
+	if err := a.loop.Run(a.loop, func(context.Context) { //nolint:contextcheck
+		ufrag = a.localUfrag
+	}); err != nil {
+		a.log.Warnf("Failed to get the local ufrag: %v", err)
+	}
+
+	return ufrag
 }
 
 func (a *Agent) gatherCandidates(ctx context.Context, done chan struct{}) { //nolint:cyclop
@@ -335,6 +357,7 @@ func (a *Agent) gatherServerReflexiveCandidates(ctx context.Context, urls []*stu
 
 //nolint:gocognit,gocyclo,cyclop,maintidx
 func (a *Agent) gatherCandidatesLocal(ctx context.Context, networkTypes []NetworkType) {
+	localUfrag := a.gatherUfrag(ctx)
 	networks := map[string]struct{}{}
 	for _, networkType := range networkTypes {
 		if networkType.IsTCP() {
@@ -423,20 +446,20 @@ func (a *Agent) gatherCandidatesLocal(ctx context.Context, networkTypes []Networ
 					// Handle ICE TCP passive mode
 					var muxConns []net.PacketConn
 					if multi, ok := a.tcpMux.(AllConnsGetter); ok {
-						a.log.Debugf("GetAllConns by ufrag: %s", a.localUfrag)
+						a.log.Debugf("GetAllConns by ufrag: %s", localUfrag)
 						// Note: this is missing zone for IPv6 by just grabbing the IP slice
-						muxConns, err = multi.GetAllConns(a.localUfrag, mappedIP.Is6(), addr.AsSlice())
+						muxConns, err = multi.GetAllConns(localUfrag, mappedIP.Is6(), addr.AsSlice())
 						if err != nil {
-							a.log.Warnf("Failed to get all TCP connections by ufrag: %s %s %s", network, addr, a.localUfrag)
+							a.log.Warnf("Failed to get all TCP connections by ufrag: %s %s %s", network, addr, localUfrag)
 
 							continue
 						}
 					} else {
-						a.log.Debugf("GetConn by ufrag: %s", a.localUfrag)
+						a.log.Debugf("GetConn by ufrag: %s", localUfrag)
 						// Note: this is missing zone for IPv6 by just grabbing the IP slice
-						conn, err := a.tcpMux.GetConnByUfrag(a.localUfrag, mappedIP.Is6(), addr.AsSlice())
+						conn, err := a.tcpMux.GetConnByUfrag(localUfrag, mappedIP.Is6(), addr.AsSlice())
 						if err != nil {
-							a.log.Warnf("Failed to get TCP connections by ufrag: %s %s %s", network, addr, a.localUfrag)
+							a.log.Warnf("Failed to get TCP connections by ufrag: %s %s %s", network, addr, localUfrag)
 
 							continue
 						}
@@ -452,7 +475,7 @@ func (a *Agent) gatherCandidatesLocal(ctx context.Context, networkTypes []Networ
 								conn,
 								a.log,
 								"Failed to get port of connection from TCPMux: %s %s %s",
-								network, addr, a.localUfrag,
+								network, addr, localUfrag,
 							)
 						}
 					}
@@ -482,7 +505,7 @@ func (a *Agent) gatherCandidatesLocal(ctx context.Context, networkTypes []Networ
 							conn,
 							a.log,
 							"Failed to get port of UDPAddr from ListenUDPInPortRange: %s %s %s",
-							network, addr, a.localUfrag,
+							network, addr, localUfrag,
 						)
 
 						continue
@@ -587,6 +610,7 @@ func (a *Agent) gatherCandidatesLocalUDPMux(ctx context.Context) error { //nolin
 		return errUDPMuxDisabled
 	}
 
+	localUfrag := a.gatherUfrag(ctx)
 	localAddresses := a.udpMux.GetListenAddresses()
 	existingConfigs := make(map[CandidateHostConfig]struct{})
 
@@ -648,7 +672,7 @@ func (a *Agent) gatherCandidatesLocalUDPMux(ctx context.Context) error { //nolin
 				continue
 			}
 
-			conn, err := a.udpMux.GetConn(a.localUfrag, udpAddr)
+			conn, err := a.udpMux.GetConn(localUfrag, udpAddr)
 			if err != nil {
 				return err
 			}
@@ -797,6 +821,8 @@ func (a *Agent) gatherCandidatesSrflxUDPMux(ctx context.Context, urls []*stun.UR
 	var wg sync.WaitGroup
 	defer wg.Wait()
 
+	localUfrag := a.gatherUfrag(ctx)
+
 	for _, networkType := range networkTypes {
 		if networkType.IsTCP() {
 			continue
@@ -844,7 +870,7 @@ func (a *Agent) gatherCandidatesSrflxUDPMux(ctx context.Context, urls []*stun.UR
 						return
 					}
 
-					conn, err := a.udpMuxSrflx.GetConnForURL(a.localUfrag, url.String(), localAddr)
+					conn, err := a.udpMuxSrflx.GetConnForURL(localUfrag, url.String(), localAddr)
 					if err != nil {
 						a.log.Warnf("Failed to find connection in UDPMuxSrflx %s %s: %v", network, url, err)
 
